@@ -14,7 +14,8 @@
                                          emits the empty string for nil (makePtrWriter, byte-array case).
   The typed stream decoders read the same headers as the generic one (`Stream.Kind`), so a typed
   decoder accepts `b` iff the generic decoder accepts `b` as some item `it` and `decodeS s it` is a value
-  (checked on the real code by the typed oracle of `hx c14`: typed-accept ⇒ generic-accept, re-encoding).
+  (tied to the real code by the `typed <family> <hex>` ops of `hx c14`: same accept/reject and same re-encoding
+  on valid, mutated and random inputs; the field lists below are compared with the Go source by the `schema` ops).
 -/
 import LemoModel.Rlp
 namespace LemoModel.RlpSchema
